@@ -63,6 +63,15 @@ var indexForms = []string{"0", "1:", ":2", "::-1", "1:3", "-1", "-2:", ":100", "
 
 // judgeHistory replays a history statement by statement and checks the invariant; returns the first violation.
 func judgeHistory(h []string) (sig, detail string, ok int) {
+	sig, detail = interp.Guard(func() (string, string) {
+		var s, d string
+		s, d, ok = judgeHistoryRaw(h)
+		return s, d
+	}, func() { vt.Discard("an evaluation of this case ran out of its budget (inconclusive)") })
+	return sig, detail, ok
+}
+
+func judgeHistoryRaw(h []string) (sig, detail string, ok int) {
 	in := interp.Shared()
 	env := object.NewEnclosedEnv(in.Global)
 	tr := fp.New()
